@@ -2,6 +2,7 @@ package props
 
 import (
 	"fmt"
+	"gkvverif/explore"
 
 	"gkvverif/harness"
 )
@@ -16,7 +17,7 @@ var (
 func c06Faulted() Profile {
 	return Profile{Name: "visits-after-faults", Exec: OnlySigs(c07Exec(1, 1, false), "visit"),
 		Budget: map[int]int{1: 0, 2: 0, 3: 1}, ShardLevel: 3,
-		Rule: "range visits after a failed file call: the C07 driver (7 initial stores x every single operation x one failing file call at every index, retried or not) followed by Set, Flush, the full read battery (ascending / descending visits with and without values, iterators), Reopen and the battery again; visit oracle only: every visit delivers exactly the model's range in order with the right values"}
+		Rule: "range visits after a failed file call: the C07 driver (8 initial stores x every single operation x one failing file call at every index, retried or not) followed by Set, Flush, the full read battery (ascending / descending visits with and without values, iterators), Reopen and the battery again; visit oracle only: every visit delivers exactly the model's range in order with the right values"}
 }
 
 func c06Profiles(tier string) []Profile {
@@ -28,7 +29,9 @@ func c06Profiles(tier string) []Profile {
 	keys := [][]byte{k6b, k6dd, k6f}
 	targets := [][]byte{nil, {}, bs("a"), bs("b"), bs("c"), bs("d"), k6dd, append(append([]byte{}, k6dd...), 'x'), bs("e"), bs("f"), bs("g")}
 	cmps := []string{"nil", "rev", "len"}
+	var pool bool
 	mk := func(cmp string) *SeqProfile {
+		pool := pool
 		other := map[string]string{"nil": "rev", "rev": "nil", "len": "rev"}[cmp]
 		return &SeqProfile{Name: "range-" + cmp, Keys: keys, Depth: depth, MapOrders: true,
 			Init: func(w *harness.World) {
@@ -75,10 +78,20 @@ func c06Profiles(tier string) []Profile {
 				n := len(w.M.Cur.Colls["x"].Items)
 				w.Hist = append(w.Hist, fmt.Sprintf("[%s] api=%d target=%.4q withValue=%v", csName, api, target, wv))
 				w.Visit("x", api, target, wv, -1)
-				for stop := 0; stop <= n; stop++ {
+				for stop := 0; stop <= n && !pool; stop++ {
 					w.Visit("x", api, target, wv, stop)
 				}
 				w.CheckVisitDepths()
+				if pool {
+					// under the recycling pool: the visitor (as CopyTo's does) evicts at
+					// its first callback while the frames of the ancestors wait; what
+					// they deliver afterwards must be live items of the pinned version
+					same := w.M.Cur.Colls["x"].Clone()
+					w.VisitMutating("x", api, target, wv, same, func() {
+						w.Evict("x")
+						w.Evict("x")
+					})
+				}
 				// the same visit once more with a visitor that, as the mutating
 				// goroutine, inserts and deletes at its first callback: the visit must
 				// still deliver the range of the version it started on
@@ -113,6 +126,12 @@ func c06Profiles(tier string) []Profile {
 	for _, c := range cmps {
 		ps = append(ps, mk(c).Profile(fmt.Sprintf("comparator %s: contents = every Set sequence of length <= %d over keys {b, dd+68 non-periodic bytes, f} x priorities %v (every subset, insertion order, priority order incl. ties and overwrites) x cache state in {dirty, flushed, flushed+evicted (every random path), reopened, reopened+GetItem with value of each key, reopened+partial key-only visit} x API in {Ascend, Descend, AscendEx, DescendEx, IterateAscend, IterateDescend} x target in {nil, \"\", a, b, c, d, the long key, the long key+x, e, f, g} x withValue x visitor stop position in {never, 0..n}; oracle: delivered sequence = model range under that comparator truncated at the stop, key/priority/value exact, Ex depth = true depth from the side-effect-free walk", c, depth, prios)))
 	}
+	pool = true
+	pp := mk("nil")
+	pp.Name, pp.CBMask = "range-pool", harness.CBItemAlloc|harness.CBAddRef|harness.CBDecRef
+	ppp := pp.Profile(fmt.Sprintf("the default-comparator product (Set sequences of length <= %d x 6 cache states x 6 APIs x 11 targets x withValue, complete visits) on a store whose ItemAlloc / ItemAddRef / ItemDecRef callbacks form a recycling pool (released items are scrubbed), plus the same visit with a visitor that calls EvictSomeItems twice at its first callback: every item delivered must be a live item of the pinned version; eviction walks follow the default random branch and every single deviation from it", depth))
+	ppp.Budget = map[int]int{explore.ClassRand: 1}
+	ps = append(ps, ppp)
 	return append(ps, c06Faulted())
 }
 
